@@ -1110,9 +1110,10 @@ func Retract(vm *VM, t Term, k Cont, env *Env) *Promise {
 		raw := rulify(c.raw, env)
 		ks[i] = func(_ context.Context) *Promise {
 			return Unify(vm, t, raw, func(env *Env) *Promise {
-				// The database may have changed since the call. Looks for the very clause.
+				// The database may have changed since the call. Looks for the very clause (the stored terms of two
+				// clauses can be the same atom, so the term alone does not identify it).
 				for j := range u.clauses {
-					if id(u.clauses[j].raw) != id(c.raw) {
+					if !sameClause(&u.clauses[j], &c) {
 						continue
 					}
 					u.clauses, u.clauses[len(u.clauses)-1] = append(u.clauses[:j], u.clauses[j+1:]...), clause{}
